@@ -294,8 +294,28 @@ pub fn size(a: &HashMap<String, String>) -> i32 {
             // client announced a Maximum Packet Size of its own in CONNECT (that limits the server, not the client)
             steps[0]["auth"] = json!(auth);
             steps[0]["own_max"] = json!(own);
+            // the transport takes a few bytes per write in two runs of three ("written in full" is about the wire, not one call)
+            if run % 3 != 0 {
+                steps.push(json!({"a": "wrmode", "m": "max", "k": 1 + run % 5}));
+            }
+            // two subscriptions made before: a refused request must leave them (and their streams) alone
+            let presubs = run % 2 == 0;
+            if presubs {
+                for k in [91usize, 92] {
+                    steps.push(json!({"a": "call", "op": k, "h": 0, "spec": {"kind": "sub", "filters": [{"f": format!("f/{}", k), "qos": 1}]}}));
+                    steps.push(settle_wake());
+                    steps.push(json!({"a": "pkt", "pk": {"t": "SUBACK", "id": {"op": k}, "rcs": [1]}}));
+                    steps.push(settle_wake());
+                }
+            }
             steps.push(json!({"a": "call", "op": 1, "h": 0, "spec": spec}));
             steps.push(settle_wake());
+            if presubs {
+                for k in [91usize, 92] {
+                    steps.push(json!({"a": "pkt", "pk": {"t": "PUBLISH", "qos": 0, "id": 0, "dup": 0, "topic": format!("pre/{}", k), "payload": "still", "sids": [{"sub": k}]}}));
+                    steps.push(settle_wake());
+                }
+            }
             let kind = spec["kind"].as_str().unwrap_or("");
             let q = spec["qos"].as_u64().unwrap_or(0);
             match (kind, q) {
@@ -362,6 +382,10 @@ pub fn quotafill(a: &HashMap<String, String>) -> i32 {
             let mut rng = StdRng::seed_from_u64(seed * 31 + ri as u64 * 7 + variant);
             let mut steps = vec![reset("quotafill", *r, None)];
             steps[0]["auth"] = json!(run % 2 == 1);
+            // the client's own Receive Maximum (CONNECT) is about what the SERVER may send: it must not limit the client
+            if run % 3 == 1 {
+                steps[0]["own_rmax"] = json!(1 + run % 2);
+            }
             let mut next = 1usize;
             let mut open: Vec<(usize, u8, u8)> = vec![]; // op, qos, stage
             for round in 0..2 {
@@ -1251,6 +1275,138 @@ pub fn crossid(a: &HashMap<String, String>) -> i32 {
             steps.push(json!({"a": "autoack"}));
             steps.push(settle());
             sink.run_script(run, steps, seed);
+        }
+    }
+    sink.finish();
+    0
+}
+
+// ---------------------------------------------------------------------------------------------
+// C11 after requests the handle refuses by itself (a subscribe / unsubscribe without any topic filter): the refusal must leave
+// nothing behind in the handle - the handle is cloned afterwards, and the original and the clones start operations that are
+// outstanding together.
+
+pub fn badopts(a: &HashMap<String, String>) -> i32 {
+    let mut sink = Sink::new(a);
+    let seed = seed_of(a);
+    for bad in ["sub", "unsub", "both"] {
+        for nclones in 1..=3usize {
+            for before in [false, true] {
+                let run = match sink.mine() {
+                    Some(x) => x,
+                    None => continue,
+                };
+                let mut steps = vec![reset("badopts", Some(10), None)];
+                let mut k = 0usize;
+                if before {
+                    k += 1;
+                    steps.push(json!({"a": "call", "op": k, "h": 0, "spec": pub_spec(k, 1, 1)}));
+                    steps.push(settle_wake());
+                }
+                for kind in ["sub", "unsub"] {
+                    if bad == kind || bad == "both" {
+                        k += 1;
+                        steps.push(json!({"a": "call", "op": k, "h": 0, "spec": {"kind": kind, "filters": []}}));
+                        steps.push(poll_op(k));
+                    }
+                }
+                for _ in 0..nclones {
+                    steps.push(json!({"a": "clone", "from": 0}));
+                }
+                let kinds = ["pub1", "pub2", "unsub", "sub"];
+                for h in 0..=nclones {
+                    k += 1;
+                    let spec = match kinds[h % 4] {
+                        "pub1" => pub_spec(k, 1, 1),
+                        "pub2" => pub_spec(k, 2, 1),
+                        "unsub" => json!({"kind": "unsub", "filters": [{"f": format!("f/{}", k)}]}),
+                        _ => json!({"kind": "sub", "filters": [{"f": format!("f/{}", k), "qos": 0}]}),
+                    };
+                    steps.push(json!({"a": "call", "op": k, "h": h, "spec": spec}));
+                    steps.push(poll_op(k));
+                }
+                steps.push(settle_wake());
+                for _ in 0..3 {
+                    steps.push(json!({"a": "autoack"}));
+                    steps.push(settle_wake());
+                }
+                steps.push(settle());
+                sink.run_script(run, steps, seed);
+            }
+        }
+    }
+    sink.finish();
+    0
+}
+
+// ---------------------------------------------------------------------------------------------
+// C16 with a blocked writer, on scripts without any race (one request, nothing inbound until it is written): while the write
+// is refused the context is polled 0..8 more times although no waker fired; then the transport accepts again. Each run is
+// validated as usual, and its outcome is compared with the run without extra polls (reported as a run of its own).
+
+pub fn blockcmp(a: &HashMap<String, String>) -> i32 {
+    let mut sink = Sink::new(a);
+    let seed = seed_of(a);
+    let reqs: Vec<Value> = vec![
+        json!({"kind": "ping"}),
+        pub_spec(1, 0, 1),
+        pub_spec(1, 1, 1),
+        pub_spec(1, 2, 30),
+        pub_spec(1, 1, 300),
+        json!({"kind": "sub", "filters": [{"f": "f/1", "qos": 1}]}),
+        json!({"kind": "disc"}),
+    ];
+    let mk = |req: &Value, nspur: usize, budget: usize| -> Vec<Value> {
+        let mut steps = vec![reset("blockcmp", Some(5), None)];
+        steps.push(json!({"a": "call", "op": 1, "h": 0, "spec": req}));
+        steps.push(poll_op(1));
+        if budget == 0 {
+            steps.push(json!({"a": "wrmode", "m": "block", "k": 0}));
+        } else {
+            steps.push(json!({"a": "wrmode", "m": "budget", "k": budget}));
+        }
+        steps.push(poll_ctx());
+        for _ in 0..nspur {
+            steps.push(poll_ctx()); // no waker has fired: the writer is still refusing
+        }
+        steps.push(json!({"a": "wrmode", "m": "accept", "k": 0}));
+        steps.push(settle_wake());
+        steps.push(json!({"a": "autoack"}));
+        steps.push(settle_wake());
+        steps.push(json!({"a": "autoack"}));
+        steps.push(settle());
+        steps
+    };
+    let run_it = |steps: &[Value]| -> (Vec<String>, Value) {
+        let p = Params::from_json(&steps[0]);
+        let mut rng = StdRng::seed_from_u64(seed);
+        let mut s = start(&p);
+        for st in &steps[1..] {
+            exec_step(&mut s, &mut rng, st);
+        }
+        (s.trace.clone(), outcome(&s))
+    };
+    for req in &reqs {
+        for budget in [0usize, 1, 3] {
+            let (_, o0) = run_it(&mk(req, 0, budget));
+            for nspur in 0..=8usize {
+                let run = match sink.mine() {
+                    Some(x) => x,
+                    None => continue,
+                };
+                let mut steps = mk(req, nspur, budget);
+                steps[0]["run"] = json!(run);
+                let (lines, o) = run_it(&steps);
+                sink.lines(run, &lines, Value::Array(steps.clone()));
+                let same = o == o0;
+                let detail = if same { String::new() } else { first_diff(&o0, &o) };
+                let cmp = vec![
+                    json!({"e": "reset", "run": run + 10_000_000, "fam": "blockcmp", "R": 5, "M": 0, "sei": 0, "seik": "zero", "disc": "spur",
+                           "mode": if cfg!(debug_assertions) { "dev" } else { "release" }, "ok": 1, "recon": 0}).to_string(),
+                    json!({"e": "disccmp", "variant": format!("spur{}", nspur), "same": same as u8, "detail": detail}).to_string(),
+                ];
+                sink.lines(run + 10_000_000, &cmp, Value::Array(steps));
+            }
         }
     }
     sink.finish();
@@ -2185,8 +2341,9 @@ pub fn endings(a: &HashMap<String, String>) -> i32 {
                     steps.push(settle_wake());
                     steps.push(json!({"a": "pkt", "pk": {"t": "SUBACK", "id": {"op": 1}, "rcs": [1]}}));
                     steps.push(settle_wake());
-                    for i in 0..2 {
-                        steps.push(json!({"a": "pkt", "pk": {"t": "PUBLISH", "qos": i as u8, "id": 30 + i as u16, "dup": 0, "topic": format!("b/{}", i), "payload": "kept", "sids": [{"sub": 1}]}}));
+                    // (two of them, or a long backlog)
+                    for i in 0..(if run % 2 == 0 { 2 } else { 40 }) {
+                        steps.push(json!({"a": "pkt", "pk": {"t": "PUBLISH", "qos": (i % 2) as u8, "id": 30 + i as u16, "dup": 0, "topic": format!("b/{}", i), "payload": "kept", "sids": [{"sub": 1}]}}));
                         steps.push(poll_ctx());
                     }
                     next = 2;
